@@ -582,6 +582,9 @@ func registerBinaryModels(P *Program) {
 		var bs [8]*smt.Term
 		for k := 0; k < 8; k++ {
 			bs[k] = smt.Mod(smt.Div(v, smt.Pow2(uint(8*k))), smt.I64(256))
+			if k == 0 {
+				ex.noteAccess(b.A.E[b.Off], true) // (scheduler: one scheduling point for the eight bytes)
+			}
 			b.A.E[b.Off+k].V = bs[k]
 		}
 		ex.u64[b.A.E[b.Off]] = u64tag{v, bs}
@@ -592,6 +595,7 @@ func registerBinaryModels(P *Program) {
 		if b.Len < 8 {
 			ex.goPanic("index out of range (Uint64)")
 		}
+		ex.noteAccess(b.A.E[b.Off], false)
 		if t, ok := ex.u64[b.A.E[b.Off]]; ok {
 			same := true
 			for k := 0; k < 8; k++ {
